@@ -1,4 +1,4 @@
-HOOK_COMMITS = ["27ad88b"]
+HOOK_COMMITS = ["27ad88b", "955c941"]
 NOTES = ("Machine-checked proof in Lean 4 over a hand-written executable model of go-jsonrpc, tied to /repo on every run by "
          "(a) facts regenerated from the Go source with obligations re-checked by Lean and (b) a correspondence harness that "
          "runs the real library and the model's executable definitions on the same cases / replays implementation traces "
@@ -103,6 +103,19 @@ CHECKS = [
   "design_ref": "DESIGN.md §6 C20",
   "note": TB + " The table's arrival interleavings are proved, not observed (no hook in httpio); scenarios force both orders.",
   "technique": "Lean 4 theorems (induction over read/close sequences and arrival events) + regenerated skeleton facts + trace replay of real reads through the model"},
+ {"property_id": "C14",
+  "text": "Theorems over the write-lock model (every writer site is begin; chunk*; end, begin enabled only when nobody holds the lock): for "
+          "every interleaving of any number of writers the wire is a concatenation of complete messages (no chunk of another message between "
+          "two chunks of one, one site per message), a second writer can never enter, chunks are never written to a connection after it was "
+          "replaced and the swap happens inside a section; the executable section monitor agrees with the model's acceptance. Tie: regenerated "
+          "table of every use of c.conn with its lock state (all writers and the swap locked; the remaining reads listed with their ordering "
+          "argument) + rounds of a mixed workload (sizes 1 B..300 kB, notifications, cancels, streams, reverse calls, pings on both ends, "
+          "reconnect) under seed-driven delays: each connection's w.begin/w.end hook trace is replayed through the model and every frame the "
+          "proxy reassembles must be one well-formed JSON-RPC frame; plus a race-detector run of the same scenarios and of the "
+          "ping-pending-at-loss schedule (support for the 'no unsynchronised access' clause).",
+  "design_ref": "DESIGN.md §6 C14",
+  "note": TB + " PARTIAL for the second clause: unsynchronised reads are covered by the regenerated use table and the race detector (dynamic), not by a memory-model proof.",
+  "technique": "Lean 4 theorems (wire invariant by induction over lock events) + regenerated facts + hook-trace inclusion + wire monitor + race-detector support"},
 ]
 
 _PENDING = "check under construction in this round (see DESIGN.md §13 build order); not claimed until its theorem file, tie and unchanged-tree sweep exist"
